@@ -320,6 +320,70 @@ R.contract(
 )
 
 
+# ------------------------------------------------------------------------------------------------- extract_from_schemas: schema-level examples of EVERY parameter and EVERY body alternative
+# extract_from_schema (verified above, at this call site by its result) yields the example values of one schema; here: each value is filed under its own parameter
+# (container of the parameter's location, the parameter's name) / its own media type, for both spellings of the example keywords.
+def _schema_examples(it, env):
+    """extract_from_schema(operation, schema, example_field, examples_field): the values found under those two keywords of THAT schema (0..2 here)."""
+    from pyvc.values import VGen
+
+    n = it.path.choose([(0, True), (1, True), (2, True)], "examples-in-schema")
+    vals = [fresh_opaque(it, "ExampleValue") for _ in range(n)]
+    it.ghost["found"] = it.ghost.get("found", []) + [(env["schema"], env["example_field_name"], env["examples_field_name"], vals)]
+    return VGen(list(vals))
+
+
+class _ParamWithSchema(D):
+    def __init__(self, location):
+        self.location = location
+
+    def make(self, it, name, idx=()):
+        from pyvc.values import VObj
+
+        return VObj(it.resolve_class("spec:SchemaParam"), {"location": self.location, "name": Str.make(it, it.path.fresh("pname")), "example_field": "example", "examples_field": "examples",
+                                                            "schema": fresh_opaque(it, "ParamSchema")})
+
+
+class _BodyAlt(D):
+    def make(self, it, name, idx=()):
+        from pyvc.values import VObj
+
+        return VObj(it.resolve_class("spec:BodyAlt"), {"media_type": Str.make(it, it.path.fresh("media_type")), "schema": fresh_opaque(it, "BodySchema")})
+
+
+R.nominal_methods["spec:SchemaParam"] = {"as_json_schema": lambda it, obj, a, k: obj.fields["schema"]}
+R.nominal_methods["spec:BodyAlt"] = {"as_json_schema": lambda it, obj, a, k: obj.fields["schema"]}
+R.nominal_methods["spec:OpWithParams"] = {"iter_parameters": lambda it, obj, a, k: list(obj.fields["params"])}
+_efs_contract = R.contracts[EX + "extract_from_schema"]
+_efs_contract.call_ensures = {}  # (its clauses speak about a two-property schema; at this call site only "the values found in THAT schema under THOSE keywords" is used)
+_efs_callsite_before = _efs_contract.returns
+_efs_contract.returns = lambda it, env: _schema_examples(it, env) if getattr(it.top_contract, "target", "").endswith("extract_from_schemas") else (_efs_callsite_before(it, env) if callable(_efs_callsite_before) else None)
+R.spec_funcs["container_name"] = lambda it, loc: {"path": "path_parameters", "query": "query", "header": "headers", "cookie": "cookies"}[loc]
+R.contract(
+    EX + "extract_from_schemas",
+    variant="filing",
+    prop="C17",
+    args={"operation": Obj("spec:OpWithParams", params=ListOf(OneOf(_ParamWithSchema("query"), _ParamWithSchema("header"), _ParamWithSchema("path")), [0, 1, 2], widen=False),
+                           body=ListOf(_BodyAlt(), [0, 1], widen=False))},
+    ghost={"found": []},
+    abstract_callees=[EX + "extract_from_schema"],
+    raises=[],
+    ensures={
+        "every_example_of_every_parameter_schema_is_filed_under_that_parameter": "all(any(is_instance(e, 'ParameterExample') and e.value is v and e.name == operation.params[i].name and "
+                                                                                 "e.container == container_name(operation.params[i].location) for e in result) "
+                                                                                 "for i in range(length(operation.params)) for v in ghost('found')[i][3])",
+        "each_parameter_schema_is_searched_once_with_the_parameters_own_keywords": "[(f[0], f[1], f[2]) for f in ghost('found')[:length(operation.params)]] == [(p.schema, 'example', 'examples') for p in operation.params]",
+        "every_body_alternative_is_searched_for_both_keyword_spellings": "[(f[0], f[1], f[2]) for f in ghost('found')[length(operation.params):]] == "
+                                                                         "([(operation.body[0].schema, 'example', 'examples'), (operation.body[0].schema, 'x-example', 'x-examples')] if length(operation.body) == 1 else [])",
+        "every_example_of_a_body_schema_is_filed_under_its_media_type": "all(any(is_instance(e, 'BodyExample') and e.value is v and e.media_type == operation.body[0].media_type for e in result) "
+                                                                        "for f in ghost('found')[length(operation.params):] for v in f[3])",
+        "nothing_is_invented": "length(result) == sum([length(f[3]) for f in ghost('found')])",
+    },
+    bounded_note="up to 2 parameters (query / header / path), up to 1 body alternative, up to 2 example values per schema",
+    replayable=False,
+)
+
+
 # ------------------------------------------------------------------------------------------------- get_strategies_from_examples: every combination becomes one explicit-phase strategy
 def _examples_list(tag):
     def returns(it, env):
